@@ -8,6 +8,9 @@
 pub mod layout {
     mod std {
         pub use crate::seams::shadow_std::*;
+        // named, not only globbed: `use std::env;` followed by `env!(..)` inside `concat!` /
+        // `include_str!` (eager expansion) needs a determinate resolution of the macro `env`
+        pub use crate::seams::shadow_std::env;
     }
     macro_rules! println {
         () => { crate::seams::emit(format_args!(""), true) };
@@ -44,6 +47,9 @@ pub mod layout {
 pub mod likely {
     mod std {
         pub use crate::seams::shadow_std::*;
+        // named, not only globbed: `use std::env;` followed by `env!(..)` inside `concat!` /
+        // `include_str!` (eager expansion) needs a determinate resolution of the macro `env`
+        pub use crate::seams::shadow_std::env;
     }
     macro_rules! println {
         () => { crate::seams::emit(format_args!(""), true) };
@@ -76,27 +82,19 @@ pub mod likely {
     }
 }
 
-/// What `fn main()` may return (`()` or `Result<(), E>`): an `Err` ends the process with a
-/// failure status in reality, so it ends the simulated run as a failure.
+/// What `fn main()` may return: anything that implements `std::process::Termination` (`()`,
+/// `Result<T, E>`, `ExitCode`, a program's own type). A failure status ends the simulated run as a
+/// failure, as it would end the process. (`Termination::report` of an `Err` prints the error to
+/// the real stderr, as the real runtime would.)
 pub trait MainReturn {
     fn finish(self);
 }
-impl MainReturn for () {
-    fn finish(self) {}
-}
-impl<T: MainReturn, E: std::fmt::Debug> MainReturn for Result<T, E> {
+impl<T: std::process::Termination> MainReturn for T {
     fn finish(self) {
-        match self {
-            Ok(t) => t.finish(),
-            Err(e) => panic!("main returned Error: {:?}", e),
-        }
-    }
-}
-impl MainReturn for std::process::ExitCode {
-    fn finish(self) {
-        // ExitCode is opaque; its Debug form is stable enough to tell success from failure
-        if format!("{:?}", self) != format!("{:?}", std::process::ExitCode::SUCCESS) {
-            panic!("main returned a failure exit code: {:?}", self);
+        let code = self.report();
+        // ExitCode is opaque; its Debug form tells success from failure
+        if format!("{:?}", code) != format!("{:?}", std::process::ExitCode::SUCCESS) {
+            panic!("main returned a failure status: {:?}", code);
         }
     }
 }
